@@ -227,4 +227,10 @@ AlphaDoc ==
 (* How an array is chunked is a concretisation choice of the harness       *)
 (* (whole event, or begin + chunks + data events), not of the model.       *)
 FilterDoc(s, e) == Step(s, e).st = "ok" /\ Cur(s).cur <= 3
+(* C13, builder clause: references and markers at every position of lists long enough to   *)
+(* outgrow a slice's first capacity steps, and as map values                             *)
+AlphaRefs ==
+  << EvED, EvEnd, EvList, EvMap, EvMark("a"), EvRef("a"), EvMark("b"), EvRef("b"),
+     PH("OnInt", "int", "int", "@int#1"), [EvStr(<<1>>) EXCEPT !.k = "@str#1"], [EvStr(<<2>>) EXCEPT !.k = "@str#2"] >>
+FilterRefs(s, e) == Step(s, e).st = "ok" /\ Cur(s).cur <= 6 /\ Len(s.stack) <= 3
 =============================================================================
